@@ -2,7 +2,7 @@
 (thorough: the same rules on the fast engine.)"""
 from .. import facts, exc, path, cfg as cfgm, tab, cg
 from ..facts import AnalysisBroken, strip, sub, locstr
-from . import _skel
+from . import _domain, _skel
 from .C07 import INFEASIBLE, block_granularity
 from .C08 import macrostep_boundary
 
@@ -98,6 +98,25 @@ def check_engine(rep, fb, ex, eq, callgraph):
     rep.minimum('R01.9', nk, 15, 'uses of state kind codes in ' + eng)
     if not masks:
         rep.ok('R01.9', eng, '%d uses of kind codes, all compared (==, !=, switch), never masked' % nk)
+    # R01.12 history records are independent
+    from .C05 import history_features
+    hf = history_features(fb, fb.fn(f.rec + '::getHistoryCompletion'))
+    store_types = set()
+    for ff in fb.funcs.values():
+        if ff.q == f.q:
+            for n in ff.walk():
+                if n['k'] == 'MemberExpr' and n.get('ref', {}).get('name') == '_history':
+                    store_types.add((n.get('t') or '')[:60])
+    shared = bool(store_types) and not any('map<' in t for t in store_types)      # one bit / element per state, not per history
+    overlap = any('isDescendant' in x for x in hf['deep']) and not hf['exclusion_live']
+    rep.check(not (shared and overlap), 'R01.12', '%s|shared history store with overlapping completions' % eng, hf['site'],
+              'the history store %s is %s and the completion of a deep history %s the states of histories nested below it: %s' % (
+                  sorted(store_types), 'one set of states shared by all histories' if shared else 'kept per history', 'INCLUDES' if overlap else 'excludes',
+                  'remembering the outer history rewrites (and can erase) the record of the inner one' if shared and overlap else 'records are independent'))
+    # R01.11 transition domain / LCCA shape of this engine's own copy
+    dom = fb.fn(f.rec + '::getTransitionDomain')
+    ns, na = _domain.check(rep, 'R01.11', fb, [dom], eng)
+    rep.minimum('R01.11', ns + na, 2, 'shortcut / acceptance sites of %s::getTransitionDomain' % eng)
     # data-model independence
     pred = callgraph.reach([f])
     direct_dm = [fb.funcs[m].q for m in pred if fb.funcs[m].file.startswith('src/uscxml/plugins/datamodel/') and pred[m] is not None and fb.funcs[pred[m]].file.startswith('src/uscxml/interpreter/' + eng)]
@@ -113,6 +132,8 @@ def run(rep, tier):
     rep.rule('R01.6', 'bitset typestate: no dynamic_bitset is indexed after clear() shrank it to zero bits')
     rep.rule('R01.8', 'interval closedness agreement: overlap and membership tests on exit intervals use non-strict comparisons, like the place that applies the interval')
     rep.rule('R01.9', 'state kind codes are an enumeration: they are compared, never bit-masked')
+    rep.rule('R01.12', 'history records are independent: either every history has its own record or the completions of distinct histories are disjoint (a deep history must not rewrite the states remembered for a history nested below it)')
+    rep.rule('R01.11', 'transition domain: the source is the domain only for an internal transition with compound source whose targets ALL are descendants; otherwise the NEAREST ancestor that is compound and contains ALL targets (quantifier-shape analysis, flag idioms included)')
     rep.rule('R01.10', 'data-model independence: the engine calls data models only through MicroStepCallbacks')
     rep.assume('the computed sets per chart (selection, entry-set completion, data handling) are not decided; R01.7 (default-history guard) was dropped as not phraseable without idiom guessing')
     fb = facts.FactBase(facts.library_tus())
